@@ -3,7 +3,7 @@
    ring (every operation exact), for every N; the layer of the executable model is definitionally that
    algebra instantiated with the IEEE operations, and is tied to the code by props/c09.py. *)
 From Coq Require Import ZArith List Bool Ring_theory.
-From Covfie Require Import AlgebraCore Stack AlgebraProofs AlgebraBridge.
+From Covfie Require Import AlgebraCore Stack AlgebraProofs AlgebraBridge MatLang Refine_Algebra.
 Import ListNotations.
 
 Theorem C09_affine_apply_spec : forall T rO rI radd rmul rsub ropp, ring_theory rO rI radd rmul rsub ropp (@eq T) ->
@@ -51,6 +51,44 @@ Example C09_example :
   AlgebraCore.affine_apply 0%Z 1%Z Z.add Z.mul A (AlgebraCore.affine_apply 0%Z 1%Z Z.add Z.mul B [10; 20]%Z) = [31; 80]%Z.
 Proof. split; reflexivity. Qed.
 
+(* ---- the code itself: the loop programs of algebra/matrix.hpp, algebra/affine.hpp and of the affine layer's
+   lookup, translated from the source on this run (gen/Gen_Algebra.v, MatLang semantics), compute exactly the
+   list functions above -- for arbitrary scalar operations (the equality is syntactic, in the code's summation
+   order), every entry symbolic, products of shapes up to 5 x 5, transforms of dimension N = 1..4 ---- *)
+Theorem C09_code_matrix_product : forall (T : Type) (zero one : T) (add mul : T -> T -> T) (n m p : nat) (A B : nat -> nat -> T),
+  (n <= 5)%nat -> (m <= 5)%nat -> (p <= 5)%nat ->
+  tab n p (g_mul T zero one add mul n m p A B) = mat_mul zero add mul p (tab n m A) (tab m p B).
+Proof. exact matmul_refines. Qed.
+Theorem C09_code_affine_times_vector : forall (T : Type) (zero one : T) (add mul : T -> T -> T) (n : nat) (A V : nat -> nat -> T),
+  (1 <= n <= 4)%nat ->
+  tabv n (g_apply T zero one add mul n A V) = AlgebraCore.affine_apply zero one add mul (tab n (S n) A) (tabv n V).
+Proof. exact affine_apply_refines. Qed.
+Theorem C09_code_affine_times_affine : forall (T : Type) (zero one : T) (add mul : T -> T -> T) (n : nat) (A B : nat -> nat -> T),
+  (1 <= n <= 4)%nat ->
+  tab n (S n) (g_compose T zero one add mul n A B) = affine_compose zero one add mul n (tab n (S n) A) (tab n (S n) B).
+Proof. exact affine_compose_refines. Qed.
+Theorem C09_code_identity : forall (T : Type) (zero one : T) (add mul : T -> T -> T) (n : nat),
+  (1 <= n <= 4)%nat -> tab n (S n) (g_id T zero one add mul n (S n)) = affine_identity zero one n.
+Proof. exact identity_refines. Qed.
+Theorem C09_code_translation : forall (T : Type) (zero one : T) (add mul : T -> T -> T) (n : nat) (t : nat -> T),
+  (1 <= n <= 4)%nat -> tab n (S n) (g_trans T zero one add mul n t) = translation zero one (map t (seq 0 n)).
+Proof. exact translation_refines. Qed.
+Theorem C09_code_scaling : forall (T : Type) (zero one : T) (add mul : T -> T -> T) (n : nat) (s : nat -> T),
+  (1 <= n <= 4)%nat -> tab n (S n) (g_scale T zero one add mul n s) = scaling zero one (map s (seq 0 n)).
+Proof. exact scaling_refines. Qed.
+(* the coordinate the affine LAYER hands to its backend (backend/transformer/affine.hpp, at) *)
+Theorem C09_code_affine_layer : forall (T : Type) (zero one : T) (add mul : T -> T -> T) (n : nat) (A C : nat -> nat -> T),
+  (1 <= n <= 4)%nat ->
+  tabv n (g_layer T zero one add mul n A C) = AlgebraCore.affine_apply zero one add mul (tab n (S n) A) (tabv n C).
+Proof. exact affine_layer_refines. Qed.
+
+(* non-vacuity: the translated product of the 2 x 3 and 3 x 2 integer matrices (i + j), (i * j + 1) *)
+Example C09_code_example :
+  tab 2 2 (g_mul Z 0%Z 1%Z Z.add Z.mul 2 3 2 (fun i j => Z.of_nat (i + j)) (fun i j => Z.of_nat (i * j + 1))) = [[3; 8]; [6; 14]]%Z.
+Proof. vm_compute. reflexivity. Qed.
+
 Print Assumptions C09_affine_apply_spec.
+Print Assumptions C09_code_affine_times_affine.
+Print Assumptions C09_code_affine_layer.
 Print Assumptions C09_compose_apply.
 Print Assumptions C09_products_of_any_length.
